@@ -4,7 +4,8 @@ from props._wf_common import TRUSTED, ASSUME, DROPPED
 PROP, LEVEL, ENGINE = "C18", "proof", "pyvc+jxvc"
 DESIGN_REF = "DESIGN.md section 3 C18"
 TECHNIQUE = ("deductive: the real statements of _eigh_jvp executed on one matrix entry in z3's Float64 theory (finiteness, all inputs) and over the reals (perturbation formula); "
-             "the jitted contraction and the Fock matrices of optimize() as ring identities on the traced jaxpr; refinement typing of the returned orbitals")
+             "the jitted contraction and the Fock matrices of optimize() as ring identities on the traced jaxpr; refinement typing of the returned orbitals"
+             " Plus all-sizes obligations (kind proof): tensor normal forms with SYMBOLIC sizes of the same traced functions (engine B-T, DESIGN 2.3b).")
 EXPLANATION = ("all-sizes (proof): opt.fock.allsizes.{uhf.up,uhf.dn,rhf} - the operand of the eigen-solver in the first SCF iteration of the real optimize() is h1 + J - K of the trial density for ALL norb, electron numbers and nchol (tensor normal form, DESIGN 2.3b). eigh.finite: for ALL finite eigenvalue pairs (equal, nearly equal, far apart, subnormal, huge) every entry of the derivative kernel Fmat is a finite double (Float64, no "
                "bound). eigh.formula: off degeneracy F_ij = 1/(w_j - w_i), F_ii = 0 (reals), and the jitted contraction is dw = diag(V^T A' V), dV = V (F o V^T A' V) - the standard "
                "first-order perturbation formulas. opt.fock (bounded): the matrix given to the eigen-solver in an SCF iteration is the RHF / UHF Fock operator of the current density "
